@@ -718,4 +718,20 @@ example : genSourceScope ⟨"gw1", "h1", "/own", "/shared", [("far", "gw2")], []
     genSourceScope ⟨"gw1", "h1", "/own", ":/shared", [], []⟩ ⟨"", "/own"⟩ = "own" ∧
     genSourceScope ⟨"gw1", "h1", "/own", ":/shared", [], []⟩ ⟨"", "/shared"⟩ = "shared" := by decide
 
+open I2N.Extracted.GenPool in
+/-- **The hand written `proximity` is the Python source of the sort key of `get_sources`**: same score for all
+parameter sets and all sources (the generated definition counts in Python's unbounded integers, the model in `Nat`).
+No hypotheses. -/
+theorem proximity_matches_source (e : Env) (s : Src) : genProximity e s = (proximity e s : Int) := by
+  unfold genProximity proximity
+  by_cases h1 : e.gateway = e.srcGateway s <;> by_cases h2 : e.host = e.srcHost s <;>
+    by_cases h3 : e.swarmPool = s.path <;>
+    simp [h1, h2, h3, I2N.Extracted.Pool.proxGateway, I2N.Extracted.Pool.proxHost, I2N.Extracted.Pool.proxSwarmPath,
+      I2N.Extracted.Pool.proxOtherPath]
+
+open I2N.Extracted.GenPool in
+/-- the generated key computes: own pool of the same host, and a foreign gateway -/
+example : genProximity ⟨"gw1", "h1", "/own", ":/shared", [], []⟩ ⟨"", "/own"⟩ = 1110 ∧
+    genProximity ⟨"gw1", "h1", "/own", "/shared", [("far", "gw2")], [("far", "h2")]⟩ ⟨"far", "/x"⟩ = 1 := by decide
+
 end I2N.Props.C13
